@@ -371,6 +371,13 @@ class C08(Check):
                         lst.pop()
                         out.stats["client_list_mutations"] += 1
         got = list(real.iterate_fields_with_offsets(base_real))
+        if depth == 0 and base_node.lo == 0 and base_node.hi == 0:
+            # the base offset is optional: leaving it out means {0}
+            bare = list(real.iterate_fields_with_offsets())
+            if [(f.name, o.min, o.max, sorted(o % 16)) for f, o in bare] != [(f.name, o.min, o.max, sorted(o % 16)) for f, o in got]:
+                out.fail("C08.base", "%s: iterate_fields_with_offsets() without an argument yields %s, with the base offset {0} it yields %s" % (
+                    where, [(f.name, o.min, o.max) for f, o in bare][:6], [(f.name, o.min, o.max) for f, o in got][:6]), "default-base")
+            out.stats["default_base_calls"] += 1
         if [f.name for f, _o in got] != [(n or "") for n, _t, _o in model]:
             out.fail("C08.base", "%s: fields yielded %s, model %s" % (where, [f.name for f, _o in got], [n for n, _t, _o in model]), "order")
             return
@@ -383,6 +390,8 @@ class C08(Check):
             dt = f.data_type
             if isinstance(dt, pydsdl.FixedLengthArrayType) and t[0] == "arr" and t[2] <= 6:
                 els = list(dt.enumerate_elements_with_offsets(off))
+                if off.min == 0 and off.max == 0 and [(i, o.min, o.max) for i, o in dt.enumerate_elements_with_offsets()] != [(i, o.min, o.max) for i, o in els]:
+                    out.fail("C08.base", "%s: enumerate_elements_with_offsets() without an argument differs from the base offset {0}" % where, "default-base-elements")
                 if [i for i, _o in els] != list(range(t[2])):
                     out.fail("C08.base", "%s: array elements yielded %s" % (where, [i for i, _o in els]), "elements")
                 for i, eo in els:
